@@ -28,7 +28,12 @@ pub fn def() -> PropDef {
 
 const STOPS: [Cause; 7] = [Cause::Stop, Cause::Halt, Cause::TryStop, Cause::TryHalt, Cause::CtxStop, Cause::Consume, Cause::Stop];
 
-pub fn generate(g: &mut G, _index: u64) -> Scenario {
+pub fn generate(g: &mut G, index: u64) -> Scenario {
+    // an eighth of the programs stop stream-attached actors (incl. saturated streams): the stop
+    // must get through and be a barrier there as well
+    if g.chance(1, 8) {
+        return super::c13::generate(g, index);
+    }
     let owning = g.chance(1, 2);
     let spec = ActorSpec {
         mailbox: g.mailbox(),
@@ -152,7 +157,10 @@ pub fn check(v: &View) -> Vec<Violation> {
                 }
             }
             // C: the actor then terminates gracefully
-            if !failed && v.out.outcome.quiescent_at_end && !graceful {
+            // (a run that hits the step cap with a stream-attached actor still alive thousands of
+            // steps after its stop was accepted is the saturated-stream case, as in C13)
+            let never = v.out.outcome.cap_phase != 0 && v.sc.spec_of(aidx).stream.is_some() && a.dead.is_none();
+            if !failed && (v.out.outcome.quiescent_at_end || never) && !graceful {
                 out.push(violation(P, "no-graceful-termination-after-stop", "", format!("actor {aidx}: a stop request was accepted at seq {acc}, nothing failed, yet the actor did not terminate gracefully (dead {:?}, how {:?})", a.dead, a.how)));
             }
         }
